@@ -848,6 +848,33 @@ def check_c11(tier):
         if t2 is not None:
             ops += [{"op": "analyze", "path": "/vws11/test_h2.py", "text": t2}, {"op": "available", "path": "/vws11/test_h2.py", "full": True}]
         hcases.append({"id": n, "ops": ops})
+    # "very large" documents: the same hostile string repeated until it crosses every power-of-two size up to 64 KiB, at two
+    # alignments (so that a multi-byte character straddles any fixed byte limit a fast path might introduce)
+    long_cases = []
+    for c in py_cases:
+        s = "".join(CLS[k] for k in c["str"])
+        if c["slot"] in ("doc_line_prefix", "body_line", "usefixtures_str", "return_annot", "default_value") and len(c["str"]) <= 2 \
+                and any(len(ch.encode("utf-8")) > 1 for ch in s) and "\n" not in s and "\r" not in s:
+            for pad in ("", "a"):
+                big = pad + s * (70000 // max(1, len(s.encode("utf-8"))))
+                t = slot_text(c["slot"], big)
+                long_cases.append((c, pad, {"id": len(py_cases) + len(long_cases), "ops": [
+                    {"op": "analyze", "path": "/vws11/conftest.py", "text": HOST_CONFTEST},
+                    {"op": "analyze", "path": "/vws11/test_h.py", "text": t},
+                    {"op": "available", "path": "/vws11/test_h.py", "full": True},
+                    {"op": "goto", "path": "/vws11/test_h.py", "line": 4, "col": 4},
+                    {"op": "undeclared", "path": "/vws11/test_h.py"},
+                    {"op": "snapshot", "full": True}]}))
+    if tier == "quick":
+        rnd.shuffle(long_cases)
+        long_cases = long_cases[:120]
+    for (c, pad, hc), res in zip(long_cases, C.run_harness([x[2] for x in long_cases])):
+        V.count()
+        V.nontriv(json.dumps(["long", c["slot"], c["str"], pad]))
+        bad = [r for r in res["res"] if isinstance(r, dict) and "panic" in r]
+        if bad:
+            V.classify(c11_dev(bad[0]), {"slot": c["slot"], "classes": c["str"], "repeated_to_bytes": 70000, "alignment_prefix": pad, "panic": bad[0]},
+                       "a library entry point panicked on a very large hostile input")
     for c, res in zip(py_cases, C.run_harness(hcases)):
         V.count()
         V.nontriv(json.dumps([c["slot"], c["str"]]))
@@ -933,6 +960,13 @@ def check_c11(tier):
             n_req += all_requests(srv, cpath, [(4, 4), (0, 0), (40, 2)])
             srv.did_change(cpath, HOST_CONFTEST, version=3)
             r = srv.pos_request("textDocument/definition", tpath, 0, 0)
+            # both documents are closed; every request kind is sent once more for the closed documents (the file exists on disk)
+            with open(tpath, "w") as fh:
+                fh.write(vtext)
+            srv.did_close(tpath)
+            srv.did_close(cpath)
+            n_req += all_requests(srv, tpath, sorted(positions)[:8])
+            n_req += all_requests(srv, cpath, [(4, 4), (0, 0)])
             return {"requests": n_req, "alive": srv.alive()}
         except (lsp.ServerDied, lsp.Timeout) as e:
             return {"error": str(e), "exit": srv.proc.poll()}
